@@ -261,6 +261,66 @@ func cmdYield(args []string) {
 	fmt.Printf("yield points inserted: %d\n", total)
 }
 
+// cmdGoStmt puts every goroutine the code under test spawns behind a gate of the simulator:
+//
+//	go func(a T) { body }(x)   =>   zzgN := zzsimctl.NewGate(); go func(a T) { zzgN.Enter(); defer zzgN.Exit(); body }(x)
+//	go f(x)                    =>   zzgN := zzsimctl.NewGate(); go func() { zzgN.Enter(); defer zzgN.Exit(); f(x) }()
+//
+// (the second form evaluates the arguments when the goroutine is released, not at the go statement;
+// each such site is logged).
+func cmdGoStmt(args []string) {
+	fs := flag.NewFlagSet("gostmt", flag.ExitOnError)
+	ctl := fs.String("ctl", "", "import path of the controller package")
+	fs.Parse(args)
+	total := 0
+	for _, f := range goFiles(fs.Args()) {
+		src, err := os.ReadFile(f)
+		if err != nil {
+			die("%v", err)
+		}
+		fset := token.NewFileSet()
+		af, err := parser.ParseFile(fset, f, src, parser.ParseComments)
+		if err != nil {
+			die("%s: %v", f, err)
+		}
+		if af.Name.Name == "main" {
+			continue
+		}
+		off := func(p token.Pos) int { return fset.Position(p).Offset }
+		var sp []splice
+		n := 0
+		ast.Inspect(af, func(nd ast.Node) bool {
+			gs, ok := nd.(*ast.GoStmt)
+			if !ok {
+				return true
+			}
+			n++
+			g := fmt.Sprintf("zzg%d", n)
+			sp = append(sp, splice{off(gs.Pos()), off(gs.Pos()), g + " := zzgatectl.NewGate(); "})
+			if fl, ok := gs.Call.Fun.(*ast.FuncLit); ok {
+				sp = append(sp, splice{off(fl.Body.Lbrace) + 1, off(fl.Body.Lbrace) + 1, " " + g + ".Enter(); defer " + g + ".Exit();"})
+				fmt.Printf("gostmt %s:%d literal\n", f, fset.Position(gs.Pos()).Line)
+			} else {
+				call := string(src[off(gs.Call.Pos()):off(gs.Call.End())])
+				sp = append(sp, splice{off(gs.Call.Pos()), off(gs.Call.End()), "func() { " + g + ".Enter(); defer " + g + ".Exit(); " + call + " }()"})
+				fmt.Printf("gostmt %s:%d call (arguments evaluated at release)\n", f, fset.Position(gs.Pos()).Line)
+			}
+			return true
+		})
+		if len(sp) == 0 {
+			continue
+		}
+		total += n
+		src = apply(src, sp)
+		po := fset.Position(af.Name.End()).Offset
+		src = append(src[:po:po], append([]byte("\n\nimport zzgatectl "+strconv.Quote(*ctl)+"\n"), src[po:]...)...)
+		if err := os.WriteFile(f, src, 0o644); err != nil {
+			die("%v", err)
+		}
+	}
+	fmt.Printf("go statements gated: %d\n", total)
+}
+
 func main() {
 	if len(os.Args) < 2 {
 		die("usage: simrewrite imports|main ...")
@@ -272,6 +332,8 @@ func main() {
 		cmdMain(os.Args[2:])
 	case "yield":
 		cmdYield(os.Args[2:])
+	case "gostmt":
+		cmdGoStmt(os.Args[2:])
 	default:
 		die("unknown command %q", os.Args[1])
 	}
